@@ -33,6 +33,9 @@ BINDS = {
                  '    case [value_item, *third_name]:', '        pass'],
     'global_assign': ['global target_name', 'target_name = 5'],
     'comp_walrus': ['value_item = [(target_name := item_var) for item_var in range(3)]'],
+    'comp_walrus_nested': ['value_item = [[(target_name := item_var) for item_var in row_var] for row_var in [[1], [2]]]'],
+    'comp_walrus_cond': ['value_item = [item_var for row_var in [[1]] for item_var in row_var if (target_name := item_var)]'],
+    'genexp_walrus_nested': ['value_item = list({(target_name := item_var) for item_var in row_var} for row_var in [[1]])'],
     'del': ['target_name = 1', 'del target_name'],
     'none': [],
 }
@@ -155,4 +158,109 @@ def sibling_comprehension_programs():
                     inner = 'def inner_function():\n' + '\n'.join('    ' + l for p in parts for l in p.split('\n')) + '\n    return reader(), collected'
                     body = '\n'.join('    ' + l for l in inner.split('\n'))
                     out.append(('sibling/%s/%s/%s/%s' % (ok, rk, ck, order), otmpl.replace('{B}', body)))
+    return out
+
+
+def declaration_programs():
+    """`global` / `nonlocal` statements that declare several names at once, where some of the declared names are spelled like
+    the names the generator hands out (A, B, C, ...) so that one binding is renamed *onto* the old spelling of another."""
+    out = []
+    pools = [('A', 'B'), ('B', 'A'), ('A', 'B', 'C'), ('C', 'A', 'B'), ('B', 'C', 'A'), ('A', 'long_name'), ('long_name', 'A'),
+             ('first_long', 'second_long'), ('A', 'B', 'long_name'), ('long_name', 'B', 'A'), ('D', 'A'), ('_A', 'A')]
+    for names in pools:
+        for extra in (0, 1, 3):                       # how often an unrelated, frequently used global is mentioned
+            for style in ('global', 'nonlocal', 'global-twice', 'global-split'):
+                uses = ' + '.join(['frequent_value'] * (extra + 1))
+                body = []
+                for i, n in enumerate(names):
+                    prev = names[i - 1] if i else 'frequent_value'
+                    body.append('%s = %s + %s' % (n, prev, uses if i == 0 else prev))
+                if style == 'global':
+                    src = 'frequent_value = 1\n' + ''.join('%s = %d\n' % (n, i + 2) for i, n in enumerate(names))
+                    src += 'def update():\n    global %s\n' % ', '.join(names) + ''.join('    %s\n' % l for l in body)
+                    src += 'update()\nprint(frequent_value, %s)\n' % ', '.join(names)
+                elif style == 'global-twice':
+                    src = 'frequent_value = 1\n' + ''.join('%s = %d\n' % (n, i + 2) for i, n in enumerate(names))
+                    src += 'def update():\n    global %s\n' % ', '.join(names) + ''.join('    %s\n' % l for l in body)
+                    src += 'def again():\n    global %s\n' % ', '.join(reversed(names)) + ''.join('    %s\n' % l for l in body[:1])
+                    src += 'update()\nagain()\nprint(frequent_value, %s)\n' % ', '.join(names)
+                elif style == 'global-split':
+                    src = 'frequent_value = 1\n' + ''.join('%s = %d\n' % (n, i + 2) for i, n in enumerate(names))
+                    src += 'def update():\n    global %s\n    global %s\n' % (names[0], ', '.join(names[1:])) + ''.join('    %s\n' % l for l in body)
+                    src += 'update()\nprint(frequent_value, %s)\n' % ', '.join(names)
+                else:
+                    src = 'def outer_function():\n    frequent_value = 1\n' + ''.join('    %s = %d\n' % (n, i + 2) for i, n in enumerate(names))
+                    src += '    def update():\n        nonlocal %s\n' % ', '.join(names) + ''.join('        %s\n' % l for l in body)
+                    src += '    update()\n    return frequent_value, %s\nprint(outer_function())\n' % ', '.join(names)
+                out.append(('decl/%s/%s/%d' % (style, '-'.join(names), extra), src))
+    return out
+
+
+SHORT_MAP = {'target_name': 'A', 'other_name': 'B', 'value_item': 'C', 'third_name': 'D', 'inner_function': 'E', 'result_value': 'F', 'inner_param': 'G',
+             'comp_var': 'H', 'outer_value': 'A', 'loop_item': 'B', 'reader': 'C', 'collected': 'D', 'inner_lambda': 'I', 'item_var': 'J'}
+
+
+def short_named(progs, variants=2):
+    """The same programs with their identifiers spelled like the names the generator hands out first (golfed or already
+    minified code): a binding that keeps its name now competes with new names of the same spelling."""
+    import re
+    out = []
+    keys = sorted(SHORT_MAP, key=len, reverse=True)
+    pat = re.compile(r'\b(' + '|'.join(keys) + r')\b')
+    for ident, src in progs:
+        for v in range(variants):
+            if v == 0:
+                m = SHORT_MAP
+            else:       # rotate the letters so that the first-assigned generated name belongs to a different identifier
+                letters = sorted(set(SHORT_MAP.values()))
+                rot = dict(zip(letters, letters[v:] + letters[:v]))
+                m = dict((k, rot[x]) for k, x in SHORT_MAP.items())
+            new = pat.sub(lambda mo: m[mo.group(1)], src)
+            try:
+                compile(new, '<short>', 'exec', dont_inherit=True)
+            except (SyntaxError, ValueError):
+                continue
+            out.append(('short%d/%s' % (v, ident), new))
+    return out
+
+
+def import_programs():
+    """imports bound in inner scopes and read from scopes nested further in (an import keeps its name unless `as` pays off)"""
+    out = []
+    for mod in ('A', 'B', 'os', 'long_module_name'):
+        for reader in ('list(%s.conv(item) + item * item for item in items)', '[%s.conv(item) for item in items if item]',
+                       '(lambda item: %s.conv(item) + item + item)(items)', 'inner(items)'):
+            for extra in ('', 'other = items\n    '):
+                body = 'def convert(items):\n    import %s\n    %s' % (mod, extra)
+                if reader == 'inner(items)':
+                    body += 'def inner(item):\n        return %s.conv(item) + item * item\n    ' % mod
+                body += 'return ' + (reader % mod if '%s' in reader else reader) + '\n'
+                out.append(('import/%s/%s/%d' % (mod, reader[:8], len(extra)), body))
+                out.append(('import-from/%s/%s/%d' % (mod, reader[:8], len(extra)), body.replace('import %s\n' % mod, 'from pkg import %s\n' % mod)))
+    return out
+
+
+def parameter_programs():
+    """functions whose parameters mix ordinary (keyword-callable, so never renamed in the signature) names — spelled long or like
+    generated names — with parameters that are renamed in place (*args, **kwargs, positional-only, self/cls), at varying
+    reference counts (the assignment order follows the counts)"""
+    out = []
+    ordinary = ['A', 'B', 'amount_value', '_A']
+    special = [('*{n}', 'sum({n})'), ('**{n}', 'len({n})'), ('{n}, /', '{n}'), ('{n}=1, /', '{n}')]
+    for o in ordinary:
+        for sp, use in special:
+            for nuse_o in (1, 3):
+                for nuse_s in (1, 4):
+                    n = 'extra_values'
+                    sig = sp.format(n=n)
+                    params = ('%s, %s%s' % (sig, o, '=2' if '=' in sig else '')) if '/' in sig else '%s, %s' % (o, sig)
+                    expr = ' + '.join([o] * nuse_o + [use.format(n=n)] * nuse_s)
+                    out.append(('param/%s/%s/%d/%d' % (o, sp, nuse_o, nuse_s), 'def total(%s):\n    return %s\n' % (params, expr)))
+                    out.append(('param-method/%s/%s/%d/%d' % (o, sp, nuse_o, nuse_s),
+                                'class Holder:\n    def total(self, %s):\n        return %s + self.base + self.base\n' % (params, expr)))
+            out.append(('param-lambda/%s/%s' % (o, sp), 'total = lambda %s: %s\n' % (
+                ('%s, %s%s' % (sp.format(n='extra_values'), o, '=2' if '=' in sp else '')) if '/' in sp else ('%s, %s' % (o, sp.format(n='extra_values'))),
+                o + ' + ' + use.format(n='extra_values') + ' + ' + use.format(n='extra_values'))))
+        out.append(('param-two/%s' % o, 'def scale(%s, factor_value):\n    return %s * factor_value * factor_value * factor_value\n' % (o, o)))
+        out.append(('param-kwonly/%s' % o, 'def scale(*values_list, %s=2):\n    return [value_item * %s for value_item in values_list] + values_list\n' % (o, o)))
     return out
